@@ -495,3 +495,74 @@ func ruleV5(r *Run) {
 		}
 	}
 }
+
+// V8 (C14): a decoded value is the caller's own. Handing out a package-level pointer (a shared
+// "zero" or "one") lets one caller's mutation change what every later decode returns.
+func init() {
+	register("V8", "no decode routine stores a package-level variable of pointer, slice or map type into its destination or returns it as the decoded value: every decoded reference value is freshly allocated (a shared object handed out once can be mutated by its receiver and then changes what every later decode yields)", 1, ruleV8)
+}
+
+func ruleV8(r *Run) {
+	p := r.P
+	pkg := p.Pkg("io")
+	if pkg == nil {
+		r.Undec("package io", 0, "not found")
+		return
+	}
+	info := pkg.TypesInfo
+	isSharedRef := func(e ast.Expr) (types.Object, bool) {
+		id, ok := ast.Unparen(e).(*ast.Ident)
+		if !ok {
+			return nil, false
+		}
+		v, ok := info.Uses[id].(*types.Var)
+		if !ok || v.Parent() != pkg.Types.Scope() {
+			return nil, false
+		}
+		switch v.Type().Underlying().(type) {
+		case *types.Pointer, *types.Slice, *types.Map:
+			return v, true
+		}
+		return nil, false
+	}
+	nStores, nBad := 0, 0
+	for _, file := range pkg.Syntax {
+		for _, d := range file.Decls {
+			fd, ok := d.(*ast.FuncDecl)
+			if !ok || fd.Body == nil {
+				continue
+			}
+			name := fd.Name.Name
+			isDecodeFn := len(name) >= 6 && (name[:6] == "decode" || name[:6] == "Decode") || (len(name) >= 4 && (name[:4] == "read" || name[:4] == "Read"))
+			if !isDecodeFn {
+				// converter literals registered in init functions are decode routines too
+				if name != "init" {
+					continue
+				}
+			}
+			perFn := 0
+			ast.Inspect(fd.Body, func(m ast.Node) bool {
+				as, ok := m.(*ast.AssignStmt)
+				if !ok || len(as.Lhs) != len(as.Rhs) {
+					return true
+				}
+				for i, l := range as.Lhs {
+					if _, isStar := ast.Unparen(l).(*ast.StarExpr); !isStar {
+						continue
+					}
+					nStores++
+					if o, shared := isSharedRef(as.Rhs[i]); shared {
+						perFn++
+						nBad++
+						r.Viol(fmt.Sprintf("shared object %s stored as decoded value in %s #%d", o.Name(), p.DeclName(fd), perFn), as.Pos(), fmt.Sprintf("the package-level %s (%s) is stored into the destination: every caller that decodes this item receives the same object, and the first one that modifies its result (x.Add(x, y)) changes what all later decodes return", o.Name(), o.Type()))
+					}
+				}
+				return true
+			})
+		}
+	}
+	r.Ok("destination stores scanned", 0, fmt.Sprintf("%d stores through destination pointers in decode routines, %d of a shared object", nStores, nBad))
+	if nStores < 100 {
+		r.Undec("destination stores", 0, fmt.Sprintf("only %d stores through destination pointers found (expected more than 100)", nStores))
+	}
+}
